@@ -32,8 +32,15 @@ pub fn run(case: &Value) -> Value {
         )
         .unwrap();
         let mut pkg = format!("[buildpack]\nuri = \".\"\n");
-        for d in node["deps"].as_array().unwrap() {
-            pkg.push_str(&format!("[[dependencies]]\nuri = \"libcnb:{}\"\n", bp_id(d.as_u64().unwrap())));
+        let mut uris: Vec<String> = node["deps"].as_array().unwrap().iter().map(|d| format!("libcnb:{}", bp_id(d.as_u64().unwrap()))).collect();
+        if let Some(noise) = node["noise"].as_array() {
+            for nz in noise {
+                let pos = usize::try_from(nz[0].as_u64().unwrap()).unwrap().min(uris.len());
+                uris.insert(pos, nz[1].as_str().unwrap().to_string());
+            }
+        }
+        for u in uris {
+            pkg.push_str(&format!("[[dependencies]]\nuri = \"{u}\"\n"));
         }
         fs::write(dir.join("package.toml"), pkg).unwrap();
     }
